@@ -331,9 +331,13 @@ TRUSTED_BASE = [
     "check compares all models in the cone of its theorems (gen/cone.py)",
     "oracles, constrained per run but not modelled: rs_graph network_simplex (flow certified by checked potentials), "
     "rayon min_by of the two parallel minimisers (pick contract checked on every recorded step), "
-    "HashMap iteration orders (read from the same process' observations), f32 slot distribution (read from the hook)",
-    "not modelled: serde parsing and ISO time formatting (times enter as seconds through the Python encoder), machine "
-    "integer widths (Z; debug builds run with overflow checks), threads, sockets, OS",
+    "HashMap iteration orders (read from the same process' observations)",
+    "the f32 operations of the slot distribution are modelled by hand (F32.v: round to nearest even on non-negative operands, "
+    "NaN/infinity explicit; not Flocq, hence no real-number axioms) and compared with the hardware's operations bit by bit",
+    "reference resolution (identifier -> index) is RawLoad.resolve in Coq; the Python encoder only interns identifier strings "
+    "as integers and converts ISO times to seconds",
+    "not modelled: serde parsing and ISO time formatting, machine integer widths other than the i64 guard of the flow "
+    "network (FlowGuard.v; elsewhere Z, debug builds run with overflow checks), threads, sockets, OS",
 ]
 
 
